@@ -12,6 +12,7 @@ EXPLANATION = ('For every body of the commit entry closure, every path from an e
                'value-slot claim, to_dereference counter) to an error exit is reported, with interprocedural lifting (a call that may effect is an '
                'effect site of its caller; its own error edge counts only if the callee can fail after effecting). Plus: the background-error gate '
                'precedes every effect of commit_raw; Commit values are built only by commit_raw/defer_commit (a refused commit can never be processed).')
+EXPLANATION += ' Added: Commit values are built / queued only by commit_raw, defer_commit and the log worker re-queueing part of a commit it popped; validation of the whole change set precedes publication. Known finding F2 (slots claimed before the last fallible step).'
 ASSUMPTIONS = ['benign effects (reasoned, not reported): CommitQueue.record_id increment (ids only compared for equality), condvar signals, statistics, log messages',
                'persistence side is covered only by: a commit that is not queued never reaches process_commits', 'unwind edges ignored']
 TRUSTED = ['rustc MIR construction (nightly)', 'pdb-facts driver', 'rule engine /verif/rules', 'effect-site table in props/C08.py']
